@@ -945,6 +945,7 @@ func (fr *Frame) unop(st *State, in *ssa.UnOp) *Term {
 		// channel receive: the value (and the comma-ok flag) come from another goroutine and are
 		// unconstrained; no modelled state changes
 		fr.fc.note("channel receive yields an unconstrained value" + fr.posOf(in))
+		fr.bumpChan(st, "$recv", True)
 		elem := in.X.Type().Underlying().(*types.Chan).Elem()
 		v := fr.fc.fresh("recv", SortOf(elem))
 		fr.typeInv(st, v, elem)
